@@ -44,7 +44,7 @@ def gen_case(rng, ctx):
             break
     which = rng.random()
     if which < 0.2:
-        scls, sch = "unifying-multiple", gen.scale(ref.PRESETS["unifying"], rng.choice([1.0] + gen.SCALES))
+        scls, sch = "unifying-multiple", gen.scale(ref.PRESETS["unifying"], rng.choice([1.0] + gen.SCALES + gen.ODD_SCALES))
     elif which < 0.4:
         scls, sch = "preset-multiple", gen.scheme_preset_multiple(rng) if rng.random() < 0.6 else gen.scheme_preset(rng)
     elif which < 0.6:
